@@ -194,7 +194,7 @@ func buildPolicies(st []PolD, li *liveInst) []failsafe.Policy[int] {
 			ps = append(ps, &posPolicy{inner: li.bulkheads[p.Inst], pos: pos, cur: li.kpos[p.Inst]})
 		case "Timeout":
 			ps = append(ps, timeout.Builder[int](time.Duration(p.Limit)).OnTimeoutExceeded(func(e failsafe.ExecutionDoneEvent[int]) {
-				log().add("TimeoutExceeded", pos, e.Attempts(), e.Retries(), e.Hedges(), e.Executions(), gOutcome(e.Result, e.Error), 0)
+				log().addT("TimeoutExceeded", pos, e.Attempts(), e.Retries(), e.Hedges(), e.Executions(), gOutcome(e.Result, e.Error), 0, log().abs(e.StartTime()), -1)
 			}).Build())
 		case "Hedge":
 			b := hedgepolicy.BuilderWithDelay[int](time.Duration(p.HDelay)).WithMaxHedges(p.Hedges)
@@ -353,7 +353,7 @@ func runHistory(t *testing.T, inst InstD, reqs []ReqD) (obs []ExecObs, start int
 				}
 				r, e := out.Go()
 				if exec != nil {
-					log.add("FnEnd", total, exec.Attempts(), exec.Retries(), exec.Hedges(), exec.Executions()+1, gOutcome(r, e), 0)
+					log.addT("FnEnd", total, exec.Attempts(), exec.Retries(), exec.Hedges(), exec.Executions()+1, gOutcome(r, e), 0, log.abs(exec.StartTime()), log.abs(exec.AttemptStartTime()))
 				} else {
 					log.add("FnEnd", total, 0, 0, 0, 0, gOutcome(r, e), 0)
 				}
